@@ -161,7 +161,9 @@ func check(argv []string) int {
 	if err != nil {
 		fmt.Fprintln(os.Stderr, "setup failed:", err)
 		// a tree that no longer loads with the contracts is reported as a violation of the claim
-		writeFail(*verif, *prop, *tier, seed, "setup: "+err.Error(), time.Since(t0).Seconds())
+		if !*noEvidence {
+			writeFail(*verif, *prop, *tier, seed, "setup: "+err.Error(), time.Since(t0).Seconds())
+		}
 		fmt.Printf("VIOLATION property=%s replay=%s no-failing-input-found\n", *prop, filepath.Join(*verif, "evidence", "replay", *prop+"_setup.json"))
 		return 1
 	}
